@@ -48,7 +48,14 @@ pub struct Case {
     /// family 0 is the start configuration; all share the write mode
     pub families: Vec<FileCfg>,
     pub ops: Vec<XOp>,
+    /// a second thread (source 1) logs while the history runs - also while reopen_output() and
+    /// reset_flw() are in progress; hook points add seed-chosen yields and short sleeps
+    #[serde(default)]
+    pub concurrent: bool,
 }
+
+/// length of the second thread's records
+const BG_LEN: usize = 24;
 
 pub struct P;
 
@@ -71,7 +78,13 @@ fn current_path(cfg: &FileCfg, dir: &Path) -> Option<PathBuf> {
 
 /// records (sequence numbers) found in `bytes`, in order; Err on a line that is no intact record
 fn parse_records(bytes: &[u8], le: &[u8], lens: &BTreeMap<u32, usize>) -> Result<Vec<u32>, String> {
+    parse_records2(bytes, le, lens).map(|(a, _)| a)
+}
+
+/// (records of the history's thread, records of the second thread), each in file order
+fn parse_records2(bytes: &[u8], le: &[u8], lens: &BTreeMap<u32, usize>) -> Result<(Vec<u32>, Vec<u32>), String> {
     let mut out = Vec::new();
+    let mut out1 = Vec::new();
     let mut rest = bytes;
     while !rest.is_empty() {
         let pos = (0..rest.len()).find(|i| rest[*i..].starts_with(le)).ok_or_else(|| format!("unterminated line {:?}", crate::util::lossy(rest)))?;
@@ -79,17 +92,27 @@ fn parse_records(bytes: &[u8], le: &[u8], lens: &BTreeMap<u32, usize>) -> Result
         rest = &rest[pos + le.len()..];
         let text = String::from_utf8_lossy(line).to_string();
         let mut it = text.splitn(3, ':');
-        let (Some("0"), Some(q)) = (it.next(), it.next()) else {
+        let (Some(src), Some(q)) = (it.next(), it.next()) else {
             return Err(format!("line {text:?} is no record of this case"));
         };
         let q: u32 = q.parse().map_err(|_| format!("line {text:?} is no record of this case"))?;
+        if src == "1" {
+            if text != payload(1, q, BG_LEN) {
+                return Err(format!("record {q} of the second thread is not intact: {text:?}"));
+            }
+            out1.push(q);
+            continue;
+        }
+        if src != "0" {
+            return Err(format!("line {text:?} is no record of this case"));
+        }
         let len = *lens.get(&q).ok_or_else(|| format!("record {q} was never logged"))?;
         if text != payload(0, q, len) {
             return Err(format!("record {q} is not intact: {text:?}"));
         }
         out.push(q);
     }
-    Ok(out)
+    Ok((out, out1))
 }
 
 impl Property for P {
@@ -117,8 +140,8 @@ impl Property for P {
             prop_oneof![Just("app".to_string()), Just("other".to_string()), Just("app2".to_string()), "[a-z]{1,5}"],
             suffix_strat(),
         );
-        (sync_mode_strat(), any::<bool>(), any::<bool>(), prop::collection::vec(fam, 1..4))
-            .prop_flat_map(|(mode, crlf, via_logger, fams)| {
+        (sync_mode_strat(), any::<bool>(), any::<bool>(), prop::collection::vec(fam, 1..4), prop::bool::weighted(0.12))
+            .prop_flat_map(|(mode, crlf, via_logger, fams, concurrent)| {
                 let families: Vec<FileCfg> = fams
                     .into_iter()
                     .map(|(rot, basename, suffix)| FileCfg {
@@ -126,12 +149,14 @@ impl Property for P {
                         discr: None,
                         suffix,
                         start_ts: false,
-                        rot: rot.map(|(n, nam)| Rot { crit: Crit::Size(n), nam, cln: Cln::Never }),
+                        // (concurrent cases: a cleanup thread whose limits are never reached - it takes
+                        // part in rotations and is joined when a state is replaced)
+                        rot: rot.map(|(n, nam)| Rot { crit: Crit::Size(n), nam, cln: if concurrent { Cln::Keep(100_000) } else { Cln::Never } }),
                         mode,
                         crlf,
                         utc: false,
                         symlink: false,
-                        bg_cleanup: false,
+                        bg_cleanup: concurrent,
                         via_logger,
                         build_variant: 0,
                     })
@@ -147,9 +172,13 @@ impl Property for P {
                     1 => Just(XOp::Reopen),
                     2 => (0..nf, prop::bool::weighted(0.15), prop::bool::weighted(0.4)).prop_map(|(family, other_mode, no_append)| XOp::Reset { family, other_mode, no_append }),
                 ];
-                (Just(families), prop::collection::vec(op, 1..30))
+                (Just(families), prop::collection::vec(op, 1..30), Just(concurrent))
             })
-            .prop_map(|(families, ops)| Case { tz: crate::vtime::tz_name(), families, ops })
+            .prop_map(|(families, ops, concurrent)| {
+                // what an externally removed file held is unobservable: not in concurrent cases
+                let ops = if concurrent { ops.into_iter().filter(|o| !matches!(o, XOp::RemoveReopen { .. })).collect() } else { ops };
+                Case { tz: crate::vtime::tz_name(), families, ops, concurrent }
+            })
             .boxed()
     }
 
@@ -163,6 +192,42 @@ impl Property for P {
         let sess = match Sess::start(cfg0, &fam_dir(&sc, 0), false, None, None) {
             Ok(s) => s,
             Err(e) => return Outcome::fail("start-failed", e),
+        };
+        // the second thread: free-running, but paced by the history (it stops when the history is
+        // done; the history waits for two of its records before every operation)
+        let bg_count = std::sync::Arc::new(std::sync::atomic::AtomicU32::new(0));
+        let bg_stop = std::sync::Arc::new(std::sync::atomic::AtomicBool::new(false));
+        let sess = std::sync::Arc::new(sess);
+        let bg = if case.concurrent {
+            out.class("concurrent-second-thread");
+            {
+                let hh = h();
+                let mut ps = hh.points.lock().unwrap();
+                ps.noise_seed = crate::util::fnv(serde_json::to_string(case).unwrap().as_bytes());
+                ps.noise_points.clear();
+                drop(ps);
+                hh.set_mode(crate::hooks::MODE_NOISE);
+            }
+            let (s2, c2, st2) = (sess.clone(), bg_count.clone(), bg_stop.clone());
+            Some(std::thread::spawn(move || {
+                let mut i = 0u32;
+                while !st2.load(std::sync::atomic::Ordering::SeqCst) && i < 4000 {
+                    s2.write(&payload(1, i, BG_LEN));
+                    i += 1;
+                    c2.store(i, std::sync::atomic::Ordering::SeqCst);
+                }
+            }))
+        } else {
+            None
+        };
+        let pace = || {
+            if case.concurrent {
+                let c0 = bg_count.load(std::sync::atomic::Ordering::SeqCst);
+                let t0 = std::time::Instant::now();
+                while bg_count.load(std::sync::atomic::Ordering::SeqCst) < c0 + 2 && t0.elapsed() < std::time::Duration::from_millis(20) {
+                    std::thread::yield_now();
+                }
+            }
         };
         let mut q: u32 = 0;
         let mut lens: BTreeMap<u32, usize> = BTreeMap::new();
@@ -187,6 +252,7 @@ impl Property for P {
             sess.write(&p);
         };
         for op in &case.ops {
+            pace();
             let cfg = &case.families[active];
             let dir = fam_dir(&sc, active);
             if std::env::var("FLV_DEBUG").is_ok() {
@@ -229,7 +295,13 @@ impl Property for P {
                         }
                     }
                     if *recreate {
-                        let _ = std::fs::write(&cur, b"");
+                        // (never truncating: with a second thread a rotation may have re-created the file meanwhile)
+                        if std::fs::OpenOptions::new().write(true).create_new(true).open(&cur).is_ok() {
+                            // (born now, in virtual time - like a file the logger creates itself)
+                            if let Some(t) = h().time() {
+                                h().register_birth(&cur, t);
+                            }
+                        }
                         out.class("file-recreated-externally-before-reopen");
                     }
                     if let Err(e) = sess.reopen() {
@@ -249,7 +321,13 @@ impl Property for P {
                         continue;
                     }
                     if *recreate {
-                        let _ = std::fs::write(&cur, b"");
+                        // (never truncating: with a second thread a rotation may have re-created the file meanwhile)
+                        if std::fs::OpenOptions::new().write(true).create_new(true).open(&cur).is_ok() {
+                            // (born now, in virtual time - like a file the logger creates itself)
+                            if let Some(t) = h().time() {
+                                h().register_birth(&cur, t);
+                            }
+                        }
                         out.class("file-recreated-externally-before-reopen");
                     }
                     if let Err(e) = sess.reopen() {
@@ -315,10 +393,22 @@ impl Property for P {
                 }
             }
         }
-        sess.shutdown();
+        pace();
+        bg_stop.store(true, std::sync::atomic::Ordering::SeqCst);
+        if let Some(j) = bg {
+            let _ = j.join();
+        }
+        h().set_mode(crate::hooks::MODE_OFF);
+        let bg_total = bg_count.load(std::sync::atomic::Ordering::SeqCst);
+        match std::sync::Arc::try_unwrap(sess) {
+            Ok(s) => s.shutdown(),
+            Err(_) => return Outcome::fail("harness", "session still shared".to_string()),
+        }
         if out.fail.is_some() {
             return out;
         }
+        // records of the second thread: where each one was found
+        let mut bg_seen: BTreeMap<u32, Vec<String>> = BTreeMap::new();
         // ---- observation -------------------------------------------------------------------
         let mut seen: BTreeMap<u32, Vec<String>> = BTreeMap::new();
         let mut note = |q: u32, place: String| seen.entry(q).or_default().push(place);
@@ -338,14 +428,23 @@ impl Property for P {
                 }
             };
             let mut last: Option<u32> = None;
+            let mut last1: Option<u32> = None;
             for f in &fam {
-                let recs = match parse_records(&f.content, &le, &lens) {
+                let (recs, recs1) = match parse_records2(&f.content, &le, &lens) {
                     Ok(r) => r,
                     Err(e) => {
                         out.set_fail("torn-or-foreign-line", format!("family #{fi} file {}: {e}", f.name));
                         return out;
                     }
                 };
+                for r in recs1 {
+                    if last1.is_some_and(|l| r <= l) {
+                        out.set_fail("second-thread-records-reordered-or-duplicated-in-family", format!("family #{fi}: record {r} of the second thread follows its record {} (file {})", last1.unwrap(), f.name));
+                        return out;
+                    }
+                    last1 = Some(r);
+                    bg_seen.entry(r).or_default().push(format!("family#{fi}"));
+                }
                 for r in recs {
                     if last.is_some_and(|l| r <= l) {
                         out.set_fail("records-reordered-or-duplicated-in-family", format!("family #{fi}: record {r} follows record {} (file {})", last.unwrap(), f.name));
@@ -365,13 +464,20 @@ impl Property for P {
         // renamed files
         for (i, (path, end)) in renamed.iter().enumerate() {
             let bytes = std::fs::read(path).unwrap_or_default();
-            let recs = match parse_records(&bytes, &le, &lens) {
+            let (recs, recs1) = match parse_records2(&bytes, &le, &lens) {
                 Ok(r) => r,
                 Err(e) => {
                     out.set_fail("torn-or-foreign-line", format!("renamed file #{i}: {e}"));
                     return out;
                 }
             };
+            if recs1.windows(2).any(|w| w[1] <= w[0]) {
+                out.set_fail("second-thread-records-reordered-or-duplicated-in-family", format!("renamed file #{i}: records of the second thread {recs1:?}"));
+                return out;
+            }
+            for r in recs1 {
+                bg_seen.entry(r).or_default().push(format!("renamed#{i}"));
+            }
             // contiguous within the records of its family (a family can be left and re-entered
             // by reset_flw)
             if let Some(first) = recs.first() {
@@ -405,6 +511,17 @@ impl Property for P {
             }
             if places.is_empty() && r >= may_miss_before {
                 out.set_fail("record-lost", format!("record {r} (of {q}) is in no file; it was logged after the last external removal; history {:?}", case.ops));
+                return out;
+            }
+        }
+        for r in 0..bg_total {
+            let places = bg_seen.get(&r).cloned().unwrap_or_default();
+            if places.len() > 1 {
+                out.set_fail("record-duplicated", format!("record {r} of the second thread found in {places:?}"));
+                return out;
+            }
+            if places.is_empty() {
+                out.set_fail("record-lost", format!("record {r} (of {bg_total}) of the second thread is in no file; history {:?}", case.ops));
                 return out;
             }
         }
